@@ -2,7 +2,7 @@
 import common
 import gen_ops
 from props import c01 as base
-from props.c01 import compare, distribution, matches_known, nontrivial   # noqa: F401
+from props.c01 import distribution, matches_known, nontrivial   # noqa: F401
 import numpy as np
 import tprog, gen_dag
 from common import fbits, show_floats, show_ints
@@ -21,7 +21,12 @@ RULE = ('per nn op: relu / leaky_relu (any slope) / selu / tanh / sigmoid, softm
         'max / avg pooling 1d / 2d over a geometry grid (non-square kernels, stride > kernel, dilation, padding, windows that do not '
         'tile), unfold / fold, batch_norm in all 8 (training | eval) x (affine or not) x (running statistics or not) modes at '
         'arbitrary running values; non-uniform upstream gradients, mixed requires_grad, ~8 % malformed configurations. Compared: '
-        'accept/reject, values, every operand gradient. Non-trivial: accepted with a differentiable operand.')
+        'accept/reject, values, every operand gradient. Non-trivial: accepted with a differentiable operand. '
+        'FAR-OUT magnitudes: every activation and every loss over logits / scores (relu, leaky_relu, selu, tanh, sigmoid, softmax, log_softmax, '
+        'bce-with-logits, cross-entropy, nll, mse) with 1-3 entries of its first operand beyond the level at which exp over- / underflows, on '
+        'both sides, in binary64 (+-710 ... +-800) and in binary32 (+-90 ... +-255; there the implementation runs on float32 leaves and is '
+        'compared with the binary64 model at 1e-4 of the value scale): forward AND every gradient, also after a second sweep. '
+        'Every nn op also as a node of a backward history (builder / oracle of C03, see C01).')
 EXHAUSTIVE = {'quick': False, 'thorough': False}
 ASSUMPTIONS = base.ASSUMPTIONS + ['relu-family inputs are kept away from the kink, pooling inputs distinct (ties are exercised by the model comparison only)']
 TRUSTED_BASE = base.TRUSTED_BASE
@@ -82,6 +87,41 @@ def bnseq_case(rng):
             'desc': ' ; '.join(lines)[:600]}
 
 
+FAR_OPS = ['relu', 'leaky_relu', 'selu', 'tanh', 'sigmoid', 'softmax', 'log_softmax', 'binary_cross_entropy_with_logits', 'cross_entropy', 'nll_loss', 'mse_loss']
+FAR_LEVELS = {'f64': ([800.0, 710.0, 745.5, 1000.0], [-800.0, -745.5, -711.0, -1000.0]),        # exp over- / underflows in binary64 ...
+              'f32': ([90.0, 100.0, 255.0, 127.5], [-90.0, -104.0, -150.0, -255.0])}             # ... and in binary32
+
+
+def far_case(rng, op, level):
+    """the op with entries of its first operand far beyond the level at which exp() overflows / underflows in the given precision, on
+    both sides: the function is smooth and its value representable there (linear, saturated or shift-invariant), so forward and
+    backward have to be right — a backward formula that is only finite for moderate inputs hides here. At the binary32 level the
+    implementation runs on float32 leaves (values exactly representable), the model in binary64."""
+    hi, lo = FAR_LEVELS[level]
+    def gen(r, o, m):
+        leaves, args = gen_ops.gen_nn(r, o, False)
+        if o in ('softmax', 'log_softmax') and leaves[0][0] == ():
+            leaves = [((3,), gen_ops.vals(r, (3,)), True)]; args = [r.pick([0, -1])]
+        q = (lambda v: round(v * 64) / 64) if level == 'f32' else (lambda v: v)
+        leaves = [tuple([lf[0], [q(v) for v in lf[1]]] + list(lf[2:])) if (lf[3] if len(lf) > 3 else 'f64') == 'f64' else lf for lf in leaves]
+        data = list(leaves[0][1])
+        pos = r.sample(range(len(data)), min(len(data), r.randint(1, 3)))
+        side = r.randrange(2)
+        for k, i in enumerate(pos):       # the replaced entries alternate between the two sides
+            data[i] = r.pick(hi if (k + side) % 2 == 0 else lo)
+        return [tuple([leaves[0][0], data, True] + list(leaves[0][3:]))] + leaves[1:], args
+    c = base.finish(base.build(rng, op, False, gen=gen), rng)
+    c['kind'] = 'far'; c['level'] = level
+    c['op'] = f'{op}/far-{level}'
+    return c
+
+
+def far_run(level):
+    def run(lines):
+        return tprog.run_program([l.replace('t leaf f64 ', 't leaf f32 ', 1) if level == 'f32' and l.startswith('t leaf f64 ') else l for l in lines])
+    return run
+
+
 FORMULA_THEOREMS = ['src_relu_vjp', 'src_relu_subgradient_at_kink', 'src_leaky_relu_vjp', 'src_selu_vjp', 'src_tanh_vjp', 'src_sigmoid_vjp', 'src_mse_vjp',
                     'src_bce_vjp', 'src_bce_logits_vjp_within_eps', 'model_applies_src_relu', 'model_applies_src_leaky_relu', 'model_applies_src_selu',
                     'model_applies_src_tanh', 'model_applies_src_sigmoid', 'model_applies_src_mse', 'model_scalars_are_src_bce']
@@ -116,7 +156,26 @@ def cases(rng, tier):
             if c:
                 c.update({'kind': 'fanout', 'op': op + '/fanout', 'nout': 1, 'malformed': False, 'leaves': [((), [0.0], True)], 'args': []})
                 out.append(c)
+    # far-out magnitudes, both sides, at the binary64 and the binary32 overflow level: forward and backward of every activation / loss
+    for op in FAR_OPS:
+        for level in ('f64', 'f32'):
+            for _ in range(3 if tier == 'quick' else 80):
+                out.append(far_case(rng, op, level))
+    # every nn op as a node of a backward history (operand shared with other consumers, several roots, accumulation; see C03 / C01)
+    for op in gen_ops.OPS_NN:
+        for _ in range(2 if tier == 'quick' else 40):
+            c = c03.shared_case(rng, op)
+            if c:
+                c['order'] = c['P'].topo_shuffle(rng)
+                c.update({'op': op + '/history', 'nout': 1, 'malformed': False, 'leaves': [((), [0.0], True)], 'args': []})
+                out.append(c)
     return out
+
+
+def compare(c, mo, io):
+    if c.get('kind') == 'far' and c['level'] == 'f32':
+        return tprog.diff_program(c['lines'], mo, io, rtol=1e-4)
+    return base.compare(c, mo, io)
 
 
 def impl(c):
@@ -124,6 +183,8 @@ def impl(c):
         return formula_cases.impl(c)
     if c.get('kind') == 'fanout':
         return tprog.run_program(c['lines'])
+    if c.get('kind') == 'far':
+        return far_run(c['level'])(c['lines'])
     if c.get('kind') == 'bnseq':
         im = BNExec(); im.momentum = c['mom']
         try:
@@ -136,6 +197,8 @@ def impl(c):
 def oracle(c):
     if c.get('kind') == 'formula':
         return None
+    if c.get('kind') == 'hist':
+        return base.oracle(c)
     if c.get('kind') == 'fanout':
         from props import c03
         f = c03.oracle(c)
@@ -159,6 +222,17 @@ def oracle(c):
             return {'key': {'op': 'batch_norm', 'cls': 'eval-backward-after-training-forward'}, 'case': {'kind': 'bnseq', 'lines': c['lines'], 'mom': c['mom'], 'op': c['op']},
                     'what': f'the input gradient of an eval-mode batch_norm output, taken after a later training forward through the same running statistics, is {got[:120]}; with the statistics the forward used it is {want.ravel()[:6].tolist()}'}
         return None
+    if c.get('kind') == 'far':
+        # the gradients under judgement come from the run at the case's precision; the finite differences from the binary64 forward
+        cc = dict(c, op=c['op'].split('/')[0])
+        f = base.oracle(cc, run=far_run(c['level']), tol=5e-5 if c['level'] == 'f64' else 2e-3)
+        if f:
+            f['key'] = dict(f['key'], level=c['level']); f['case'] = dict(f['case'], kind='far', level=c['level'])
+        return f
+    if c['op'] == 'batch_norm' and c.get('leaves') and any(abs(v) >= 2.0 ** 20 for v in c['leaves'][0][1]):
+        return None        # data riding on a level of 2^26: a finite-difference step of 1e-6 is below their resolution
+    if c['op'].startswith('max_pool') and c.get('leaves') and len(set(c['leaves'][0][1])) != len(c['leaves'][0][1]):
+        return None        # equal entries: where two of them share a window the function has a kink and finite differences say nothing
     return base.oracle(c)
 
 
@@ -169,6 +243,9 @@ def _fix(c):
     if c.get('kind') == 'fanout':
         from props import c03
         d = c03._unstrip(c); d['kind'] = 'fanout'
+        return d
+    if c.get('kind') == 'far':
+        d = base._fix(dict(c)); d['kind'] = 'far'; d['level'] = c['level']
         return d
     return c if c.get('kind') == 'bnseq' else base._fix(c)
 def replay(fail):
